@@ -67,3 +67,8 @@ func truncReuse(samplingFrequency int) audioEntry {
 	sr := uint16(samplingFrequency)
 	return audioEntry{SampleRate: sr, Frequency: int(sr)}
 }
+
+// FWD-SWAP: two same-typed parameters passed crosswise to a callee with the same parameter names.
+func makeRange(startNr, endNr uint32) [2]uint32 { return [2]uint32{startNr, endNr} }
+
+func swappedForward(startNr, endNr uint32) [2]uint32 { return makeRange(endNr, startNr) }
